@@ -12,7 +12,7 @@ Open Scope N_scope.
 (* the chunk list as the footers see it: each footer points to its predecessor, the oldest one to the
    static sentinel *)
 Definition sentinel (eaddr : N) : val :=
-  VPtr eaddr (VRec [("prev", VUnit); ("data", VN 0); ("layout", vlayout (mkLayout 0 1))]).
+  VPtr eaddr (VRec [("prev", VUnit); ("data", VN 0); ("layout", vlayout (mkLayout 0 1)); ("ptr", VN eaddr)]).
 
 Fixpoint footer_val (k : cfg) (cs : list chunk) : val :=
   match cs with
@@ -20,7 +20,8 @@ Fixpoint footer_val (k : cfg) (cs : list chunk) : val :=
   | c :: older =>
       VPtr (c_foot c)
            (VRec [("prev", footer_val k older); ("data", VN (c_data c));
-                  ("layout", vlayout (mkLayout (c_nswf c + k_footer k) (c_align c)))])
+                  ("layout", vlayout (mkLayout (c_nswf c + k_footer k) (c_align c)));
+                  ("ptr", VN (c_ptr c))])
   end.
 
 Definition walk_env (k : cfg) (cs : list chunk) (f : val) : env :=
@@ -126,3 +127,77 @@ Example walk_ex :
   = XOk (walk_env k [] (footer_val k [mkChunk 5000 448 16 5448 0]))
         [("dealloc", [VN 9000; vlayout (mkLayout 1008 16)]); ("dealloc", [VN 5000; vlayout (mkLayout 496 16)])] [].
 Proof. vm_compute. reflexivity. Qed.
+
+(* ---------- chunk iteration: ChunkRawIter::next, call after call, over a chunk list of any length.
+   One call is made of the source's own pieces (LeafActual.v): the end test (`foot.is_empty()`), the
+   slice the footer reports (as_raw_parts: finger, footer address - finger) and the step to the
+   previous footer; the statements around them are pinned (chunk_raw_iter_walk) ---------- *)
+Inductive rnext := RDone | RItem (p l : N) (next : val) | RStuck.
+
+Definition raw_next (k : cfg) (fv : val) : rnext :=
+  let en := [("self", VRec [("footer", fv)]); ("EMPTY_CHUNK", sentinel (k_eaddr k))] in
+  match call_fn src_fns en "raw_iter_done" [] with
+  | Ret (VB true) => RDone
+  | Ret (VB false) =>
+      match call_fn src_fns [("self", fv)] "chunk_parts_ptr" [],
+            call_fn src_fns [("self", fv)] "chunk_parts_len" [],
+            call_fn src_fns en "raw_iter_advance" [] with
+      | Ret (VN p), Ret (VN l), Ret nx => RItem p l nx
+      | _, _, _ => RStuck
+      end
+  | _ => RStuck
+  end.
+
+Fixpoint raw_collect (k : cfg) (fuel : nat) (fv : val) : option (list (N * N)) :=
+  match fuel with
+  | O => None
+  | S f => match raw_next k fv with
+           | RDone => Some []
+           | RItem p l nx => match raw_collect k f nx with Some r => Some ((p, l) :: r) | None => None end
+           | RStuck => None
+           end
+  end.
+
+Ltac rsimpl2 :=
+  cbv beta iota zeta delta
+    [raw_next call_fn eval footer_val sentinel lookup bind finish meth0 meth1 fn_params fn_body src_fns
+     FUEL_SEM String.eqb Ascii.eqb Bool.eqb List.app List.combine List.length Nat.eqb negb fst snd].
+
+Lemma raw_next_sentinel k : raw_next k (footer_val k []) = RDone.
+Proof. rsimpl2. rewrite N.eqb_refl. reflexivity. Qed.
+
+Lemma raw_next_chunk k c cs : c_foot c <> k_eaddr k -> c_ptr c <= c_foot c ->
+  raw_next k (footer_val k (c :: cs)) = RItem (c_ptr c) (c_foot c - c_ptr c) (footer_val k cs).
+Proof.
+  intros H1 H2. apply N.eqb_neq in H1. apply N.leb_le in H2.
+  rsimpl2. rewrite H1. rsimpl2. rewrite H2. reflexivity.
+Qed.
+
+Lemma raw_collect_S k f fv :
+  raw_collect k (S f) fv =
+  match raw_next k fv with
+  | RDone => Some []
+  | RItem p l nx => match raw_collect k f nx with Some r => Some ((p, l) :: r) | None => None end
+  | RStuck => None
+  end.
+Proof. reflexivity. Qed.
+
+Theorem raw_iteration_lists_the_chunks k cs :
+  Forall (fun c => c_foot c <> k_eaddr k /\ c_ptr c <= c_foot c) cs ->
+  forall extra, raw_collect k (S (List.length cs) + extra) (footer_val k cs)
+                = Some (map (fun c => (c_ptr c, c_foot c - c_ptr c)) cs).
+Proof.
+  induction 1 as [|c cs [H1 H2] _ IH]; intros extra.
+  - change (S (List.length (@nil chunk)) + extra)%nat with (S extra). rewrite raw_collect_S, raw_next_sentinel. reflexivity.
+  - change (S (List.length (c :: cs)) + extra)%nat with (S (S (List.length cs) + extra)).
+    rewrite raw_collect_S, (raw_next_chunk k c cs H1 H2), (IH extra). reflexivity.
+Qed.
+
+(* which is the model's q_iter_chunks *)
+Corollary raw_iteration_is_q_iter_chunks k (b : bump) :
+  Forall (fun c => c_foot c <> k_eaddr k /\ c_ptr c <= c_foot c) (chunks b) ->
+  raw_collect k (S (List.length (chunks b))) (footer_val k (chunks b)) = Some (q_iter_chunks b).
+Proof.
+  intros H. pose proof (raw_iteration_lists_the_chunks k (chunks b) H 0) as E.
+  replace (S (List.length (chunks b)) + 0)%nat with (S (List.length (chunks b))) in E by lia. exact E.
+Qed.
